@@ -17,6 +17,18 @@ INVARIANT Covered
 """
 
 
+CFG_MIX = """SPECIFICATION TSpec
+CONSTANTS
+  Xs = {}
+  W = 4
+  Ws = {}
+  MOlds = {}
+  Burns = {}
+INVARIANT Conforms
+INVARIANT Covered
+"""
+
+
 def to_cells(fn):
     return [{"i": k[0], "v": k[1], "f": k[2], "c": str(v)} for k, v in sorted(fn.items())]
 
@@ -29,11 +41,15 @@ def run(ctx):
                 "update machinery (ModelParameter rules, Collect, Gaussian observation model, compute_sufficient_statistics, "
                 "update_parameters) on a mini variable graph and TLC compares the resulting prior mean, prior variance, scalar and "
                 "per-feature noise variance, the compute-then-assign order and the population-mean identity with the "
-                "specification (MStepTrace.tla), checking the records cover the space; real fits (incl. the mixture model and a "
+                "specification (MStepTrace.tla), checking the records cover the space; the mixture model's rules (probabilities, "
+                "responsibility-weighted cluster means - scalar and vector-valued -, cluster dispersions in both phases) are stated in "
+                "MixStep.tla (ProbsSumToOne, MeanIsConvex, TotalMean, EqualSplit, VarNonNegative) and every case - 2-3 individuals, "
+                "responsibilities in quarters, two pre-step mean pairs - is run through the model's own parameter declarations "
+                "(MixStepTrace.tla); real fits (incl. the mixture model and a "
                 "run without memory-less phase) are validated against SaemTrace.tla (BatchUpdate, burn-in flag, statistics "
                 "identity). Distinct = distinct case / (kind, configuration).")
     ctx.assumptions = ["squares of returned standard deviations are compared with the exact rationals within 2e-5 relative (float32)",
-                       "mixture responsibilities (softmax) are bound only through the fit traces, not through exact cases"]
+                       "mixture cases: the responsibilities are injected as log-responsibilities (the softmax of the code is applied to them)"]
     tmp = os.path.join(ctx.tmp, "ms")
     os.makedirs(tmp, exist_ok=True)
     fills = [7.5, float("nan"), 1e30, float("inf"), 0.0]
@@ -61,6 +77,25 @@ def run(ctx):
                 which = "noise" if cfg.endswith("noise.cfg") else "latent"
             ctx.violation({"check": "conformance", "rules": which, "status": bad and bad["status"]},
                           f"update rules differ from MStep.tla on {bad}", replay=bad)
+    # the mixture model's rules (MixStep.tla): every enumerated case through the model's own parameter declarations
+    res, cs = cases.enumerate_cases("MC_MixStep", "MC_MixStep.cfg", tmp, "mix")
+    ctx.add_tlc("MixStep MC_MixStep.cfg", res)
+    ctx.log(f"TLC MC_MixStep.cfg: {res.distinct} cases, violated={res.violated} ({res.wall:.1f}s)")
+    if res.violated:
+        ctx.violation({"check": "design", "invariant": res.violated[0]}, f"MixStep.tla violates {res.violated}", replay=res.trace_text[:3000])
+    recs = [mstep.run_mix_case(list(c["xs"]), list(c["ws"]), list(c["mold"]), bool(c["burn"])) for c in cs]
+    ok, idx, r2 = cases.validate_records("MixStepTrace", CFG_MIX, recs, tmp, "conf_mix", env={"EXPECT_COUNT": str(len(cs))})
+    ctx.traces += len(recs)
+    ctx.states += r2.distinct
+    ctx.transitions += r2.generated
+    for r in recs:
+        ctx.case(key=("mix", tuple(r["xs"]), tuple(r["ws"]), tuple(r["mold"]), r["burn"]))
+    ctx.log(f"MC_MixStep.cfg: {len(recs)} cases run through the mixture model's update rules -> {'all conform' if ok else 'MISMATCH'} ({r2.wall:.1f}s)")
+    ctx.sample(recs[len(recs) // 3])
+    if not ok:
+        bad = recs[idx] if idx is not None else None
+        ctx.violation({"check": "conformance", "rules": "mixture", "status": bad and bad["status"][:40]},
+                      f"mixture update rules differ from MixStep.tla on {bad}", replay=bad)
     # batched update / phase flag in real fits
     rnd = random.Random(ctx.seed)
     kinds = ["logistic_diag_src1", "mixture_2"] if q else ["logistic_diag_src1", "mixture_2", "joint_src1", "linear_scalar_src1", "shared_speed_src1"]
